@@ -56,6 +56,11 @@ CLAIMED = {
     text="Dispatch layer only: each of the 50 DunderMixin methods is executed with its real body and must request the traced object's method of its own name with the same arguments; the real binary_operation wrapper is executed in three scenarios per sample operator (own method succeeds / fails and the reflected method of the other operand is called with swapped operands / both fail and a GuppyTypeError carries the operand types in source order); tables are compared with the regular-mode tables of expr_checker; the decorator placement is checked per method; the mocked int/float/len are executed for GuppyObject and plain arguments. Together with C04's proof of the regular-mode dispatch this gives identical operator resolution in both modes.",
     note="does not cover values computed (both modes call the same definitions), unpack_guppy_object/guppy_object_from_py, trace_call; decorators functools.wraps/capture_guppy_errors treated as transparent.",
     technique="deductive: symbolic execution of the real mixin methods and wrappers with mocked tracing state; finite complete case splits"),
+ "C24": dict(
+    category="proof", design_ref="DESIGN.md §6 C24",
+    text="The real BBUnitaryChecker / check_cfg_unitary / check_invalid_under_dagger run (through the NodeVisitor prelude) on statement trees built from /repo's own node classes: _check_call is decided for the complete 8x8 UnitaryFlags domain x qubit/classical arguments (rejected iff a qubit argument and context flags not a subset of callee flags, diagnostic carries the missing flags); coverage scenarios prove a violating call is found as a statement, in the block's branch predicate, nested in the first argument and in an argument after a qubit argument, in assignment values, as LocalCall and TensorCall; barrier/state_result and classical-only calls are accepted; under Dagger assignments, subscripted places and loops are rejected and accepted without it; add_unitarity_metadata records flags.value for all 8 values.",
+    note="argument types are abstracted to a has-qubit attribute; ENGINE.get_parsed is a table; with-block contexts use the same checker through ModifiedBlock.flags (not re-proved here).",
+    technique="deductive: exhaustive symbolic execution of the real visitor over the finite flag domain + structural coverage scenarios on /repo's node classes"),
 }
 
 NOT_APPLICABLE = {
